@@ -359,14 +359,17 @@ def rule_d(R, ctx, rid="C17.d", only=None):
         v = FnView(fn)
         cfg = fn.cfg()
         src = set()  # value keys of item lengths
+        src_item = {}  # length value -> item_key of the item it is the length of
         for cs in fn.calls():
             if re.search(r"Item::(len|content_len)$", F.strip_generics(cs.name)) and isinstance(cs.dest, int):
                 src.add(("local", cs.dest))
+                src_item[("local", cs.dest)] = mir_vkey(fn, cs.args[0])
         for i, j, st in fn.stmts():
             o = st["rv"].get("use")
             pl = o.get("c", o.get("m")) if isinstance(o, dict) else None
             if isinstance(pl, dict) and pl.get("p") and isinstance(pl["p"][-1], str) and pl["p"][-1].endswith("Item.len") and isinstance(st["dst"], int):
                 src.add(("local", st["dst"]))
+                src_item[("local", st["dst"])] = mir_vkey(fn, {"c": {"l": pl["l"], "p": pl["p"][:-1]}})
         k = 0
         for i, j, st in fn.stmts():
             rv = st["rv"]
@@ -376,6 +379,22 @@ def rule_d(R, ctx, rid="C17.d", only=None):
                 continue
             n += 1
             ok = v.necessary_any(i, vis_lit)
+            if ok:
+                own = {src_item[mir_root(fn, rv[x])] for x in ("a", "b") if mir_root(fn, rv[x]) in src_item}
+                calls_by_bb = {c.bb: c for c in fn.calls()}
+                tested = set()
+                for l in v.guards(i):
+                    if vis_lit(l):
+                        t = simp(l.term)
+                        c = calls_by_bb.get(t[3]) if t[0] == "call" and len(t) > 3 else None
+                        if c is not None:
+                            tested |= {mir_vkey(fn, a) for a in c.args}
+                if own and tested and not (own & tested):
+                    R.ob(rid, fn, "uses-length#%d:%s" % (k, rv["bin"].replace("WithOverflow", "")), False,
+                         "the liveness test that decides this step looks at another item (%s) than the one whose length is consumed (%s)" %
+                         ([sshow_key(x) for x in sorted(tested, key=str)][:2], [sshow_key(x) for x in sorted(own, key=str)][:2]), "%s:%s" % (fn.file, st["line"]))
+                    k += 1
+                    continue
             R.ob(rid, fn, "uses-length#%d:%s" % (k, rv["bin"].replace("WithOverflow", "")), ok,
                  "length of the walked item is consumed under a liveness test" if ok else
                  "the length of the walked item enters `%s` with no liveness test of that item on some path (guards: %s): an "
